@@ -5,7 +5,12 @@ import BufProofs.Lemmas.FormatLemmas
   theorem about it.  What is proved is about the executable checker that the driver runs on every
   (input, real formatter output) pair:
 
-    driver accepts  ⇔  validFormat inp out ∧ isFormatted out ∧ format(out) = out   (last one: harness)
+    driver accepts  ⇔  validFormatFile inp out ∧ isFormatted out ∧ format(out) = out   (last one: harness)
+
+  where `validFormatFile inp out = validFormat (stripBOM inp) out`: protocompile's lexer consumes a
+  UTF-8 byte order mark at the beginning of a file (`file_checker_sound`, `file_comments_preserved`,
+  `comments_stripBOM`; `comment_only_file_not_emptied`: an accepted run with EMPTY output has an
+  input without any comment — a comment-only file is never formatted to nothing).
 
   * `checker_sound`, `checker_sound_tokens`, `header_permutation`: acceptance implies an explicit
     RELATION BETWEEN `inp` AND `out`: the significant tokens of `out` (with the comments
@@ -232,6 +237,62 @@ theorem comments_attached (inp out : Str) (h : validFormat inp out = true) :
     rw [List.flatMap_append, this, List.append_nil] at h1
     exact h1
 
+/-! ### file contents: the byte order mark, files without tokens -/
+
+/-- `stripBOM` removes one leading U+FEFF and nothing else. -/
+theorem stripBOM_spec (s : Str) : stripBOM s = s ∨ s = bomChar :: stripBOM s := by
+  cases s with
+  | nil => left; rfl
+  | cons c cs =>
+    unfold stripBOM
+    by_cases h : c = bomChar
+    · right; simp [h]
+    · left; simp [h]
+
+/-- the byte order mark is not (part of) a comment: the comments of a file are the comments of
+    the text behind the mark. -/
+theorem comments_stripBOM (s : Str) : comments (lex (stripBOM s)) = comments (lex s) := by
+  rcases stripBOM_spec s with h | h
+  · rw [h]
+  · conv => rhs; rw [h]
+    rw [lex_bom]
+    unfold comments
+    simp [List.filter, Token.isComment]
+
+/-- soundness of the checker the driver runs, on file contents: acceptance relates the text of
+    the input BEHIND ITS BYTE ORDER MARK (what protocompile lexes) to the output. -/
+theorem file_checker_sound (inp out : Str) (h : validFormatFile inp out = true) :
+    FormatRel (decorate (lex (stripBOM inp))) (decorate (lex out)) :=
+  checker_sound _ _ h
+
+/-- no comment of a FILE is lost or invented (byte order mark or not). -/
+theorem file_comments_preserved (inp out : Str) (h : validFormatFile inp out = true) :
+    ((comments (lex out)).map commentKey).Perm ((comments (lex inp)).map commentKey) := by
+  rw [← comments_stripBOM inp]
+  exact comments_preserved _ _ h
+
+/-- A run whose output is EMPTY is accepted only if the input has no comment at all: a file that
+    consists of comments only (a licence header, everything commented out -- all its comments
+    belong to the EOF token) cannot be formatted to the empty file. -/
+theorem comment_only_file_not_emptied (inp : Str) (h : validFormatFile inp [] = true) :
+    comments (lex inp) = [] := by
+  have hp := file_comments_preserved inp [] h
+  have h0 : comments (lex ([] : Str)) = [] := rfl
+  rw [h0] at hp
+  have := hp.symm.eq_nil
+  exact List.map_eq_nil_iff.mp this
+
+/-- the number of comments never changes in an accepted run -/
+theorem file_comment_count (inp out : Str) (h : validFormatFile inp out = true) :
+    (comments (lex out)).length = (comments (lex inp)).length := by
+  have := (file_comments_preserved inp out h).length_eq
+  simpa using this
+
+/-- why the rule is needed: without it the mark is a token of the input that the output lacks -/
+theorem bom_needs_stripping_counterexample :
+    validFormat (bomChar :: "// c\n".toList) "// c\n".toList = false ∧
+    validFormatFile (bomChar :: "// c\n".toList) "// c\n".toList = true := by decide +kernel
+
 /-! ### the normal form -/
 
 /-- A formatted text is accepted as its own format. -/
@@ -375,5 +436,21 @@ theorem unstable_sort_counterexample :
     SortedPermOf lt l out ∧ out.filter (·.1 = 7) ≠ l.filter (·.1 = 7) ∧
       (isort lt l).filter (·.1 = 7) = l.filter (·.1 = 7) := by
   refine ⟨⟨by decide, by unfold Sorted; decide⟩, by decide, by decide⟩
+
+-- degenerate files (family "degenerate"): comments of a file without tokens belong to EOF and must stay
+example : validFormatFile "// licence\n\n/* all commented out */".toList "// licence\n\n/* all commented out */\n".toList = true := by decide +kernel
+example : isFormatted "// licence\n\n/* all commented out */\n".toList = true := by decide +kernel
+example : validFormatFile "// licence\n".toList [] = false := by decide +kernel                     -- seeded change C07-m10
+example : validFormatFile "// a\n// b\n".toList "// a\n".toList = false := by decide +kernel
+example : validFormatFile "message M {} // t".toList "message M {}\n".toList = false := by decide +kernel   -- trailing comment of the last declaration, no final newline
+example : validFormatFile "message M {} // t".toList "message M {} // t\n".toList = true := by decide +kernel
+example : validFormatFile "syntax = \"proto3\";\n// after".toList "syntax = \"proto3\";\n".toList = false := by decide +kernel
+example : validFormatFile [] [] = true := by decide +kernel
+example : isFormatted [] = true := by decide +kernel
+-- comments on the separators and brackets of option literals (family "lit")
+example : validFormatFile "option (o) = { r: [1], // c\n a: 2 };".toList "option (o) = {\n  r: [1] // c\n  a: 2\n};\n".toList = true := by decide +kernel
+example : validFormatFile "option (o) = { r: [1], // c\n a: 2 };".toList "option (o) = {\n  r: [1]\n  a: 2\n};\n".toList = false := by decide +kernel   -- seeded change C07-m9
+example : validFormatFile "option (o) = { r: [ // c\n 1, 2] };".toList "option (o) = {\n  r: [\n    1,\n    2\n  ]\n};\n".toList = false := by decide +kernel   -- comment behind '[' dropped
+example : validFormatFile "option (o) = { r: [ // c\n 1, 2] };".toList "option (o) = {\n  r: [\n    // c\n    1,\n    2\n  ]\n};\n".toList = true := by decide +kernel
 
 end BufProofs.C07
